@@ -8,7 +8,7 @@ from props import util
 from props.C20 import ref_oracle
 
 THEOREMS = ['C13_merged_point_satisfies_equalities', 'C13_merged_rows_are_the_fine_rows', 'C13_merged_value_is_the_fine_value',
-            'C13_merged_limits_are_means', 'C13_coarse_weights', 'C13_coarse_rows']
+            'C13_merged_limits_are_means', 'C13_coarse_weights', 'C13_coarse_rows', 'C13_coarse_dispatch_is_spread', 'C13_coarse_realises']
 CFG = {'coarse_windows': True, 'p_coarse': 0.5, 'p_periodic': 0.5, 'T': (4, 12), 'n_assets': (1, 3), 'nodes': (1, 3), 'p_window': 0.0, 'p_wacc': 0.3, 'p_market': 0.9,
        'tzs': [None], 'units': ['h', 'd'], 'p_inflow': 0.3,
        'kinds': {'SimpleContract': 3, 'Contract': 2, 'Transport': 3, 'Storage': 3, 'MultiCommodityContract': 2, 'ExtendedTransport': 1}}
